@@ -529,6 +529,114 @@ func sivKeysetSection(x *h.X) {
 	}
 }
 
+// sivCollisionSection: FORCED output-prefix collisions. AES-SIV is deterministic, so the reference can search a
+// plaintext whose RAW ciphertext starts with 0x01 (0x00), and the keyset's TINK (CRUNCHY) key gets the next four
+// bytes as its id: a valid RAW ciphertext that carries another enabled key's prefix. It must still decrypt (the
+// accepted set is the union over the enabled entries), in every key order, whichever key is primary, and so must
+// the prefixed key's own ciphertexts; with the RAW key disabled the colliding ciphertext is rejected.
+func sivCollisionSection(x *h.X) {
+	v := h.Pick(x, "prefixed-variant", []ref.Variant{ref.Tink, ref.Crunchy})
+	rawFirst := x.Choose("raw-first", 2) == 1
+	primary := x.Choose("primary", 2)
+	rawDisabled := x.Choose("raw-disabled", 2) == 1
+	ai := h.Pick(x, "ad", []int{0, 1, 6})
+	n := h.Pick(x, "ptlen", []int{0, 5, 16, 33})
+	kbR, kbP := ref.KeyBytes("aessiv-coll-raw", 64), ref.KeyBytes("aessiv-coll-pre", 64)
+	ad := adOf(3, ai)
+	lead := ref.Prefix(v, 0)[0]
+	var pt, rawCT []byte
+	for c := 0; c < 1<<16; c++ {
+		cand := append(ref.Pattern(2, n), byte(c), byte(c>>8))
+		if ct := ref.SIVEncrypt(kbR, cand, ad); ct[0] == lead {
+			pt, rawCT = cand, ct
+			break
+		}
+	}
+	if pt == nil {
+		x.Fail("harness", "no plaintext found whose RAW ciphertext starts with %#x", lead)
+		return
+	}
+	id := binary.BigEndian.Uint32(rawCT[1:5])
+	kr, err := newSIVKey(kbR, ref.Raw, 0)
+	if err != nil {
+		x.Fail("construct", "raw key: %v", err)
+		return
+	}
+	kp, err := newSIVKey(kbP, v, id)
+	if err != nil {
+		x.Fail("construct", "prefixed key: %v", err)
+		return
+	}
+	rawSt := tinkpb.KeyStatusType_ENABLED
+	if rawDisabled {
+		rawSt = tinkpb.KeyStatusType_DISABLED
+	}
+	// primary: 0 = the RAW key, 1 = the prefixed key (a disabled key cannot be primary)
+	if rawDisabled && primary == 0 {
+		return
+	}
+	er := tk.Entry{Key: kr, ID: id ^ 0x55, Status: rawSt, Primary: primary == 0}
+	ep := tk.Entry{Key: kp, ID: id, Status: tinkpb.KeyStatusType_ENABLED, Primary: primary == 1}
+	es := []tk.Entry{ep, er}
+	if rawFirst {
+		es = []tk.Entry{er, ep}
+	}
+	hd, err := tk.Handle(es)
+	if err != nil {
+		x.Fail("construct", "keyset: %v", err)
+		return
+	}
+	d, err := daead.New(hd)
+	if err != nil {
+		x.Fail("construct", "daead.New: %v", err)
+		return
+	}
+	x.NonTrivial()
+	cfg := fmt.Sprintf("AES-SIV keyset [RAW + %v id=%#x] rawFirst=%v primary=%d rawDisabled=%v pt=%d ad=%d", v, id, rawFirst, primary, rawDisabled, len(pt), ai)
+	got, err := d.DecryptDeterministically(bytes.Clone(rawCT), ad)
+	x.Eval(1)
+	if rawDisabled {
+		x.Outcome("collision/raw-disabled-rejected")
+		if err == nil {
+			x.Fail("accept-disabled-key", "%s: ciphertext of the disabled RAW key accepted", cfg)
+		}
+	} else {
+		x.Outcome("collision/raw-accepted")
+		if err != nil || !bytes.Equal(got, pt) {
+			x.Fail("reject-valid", "%s: the RAW key's ciphertext %s starts with the other key's output prefix and is rejected: %s, %v", cfg, tk.Hex(rawCT), tk.Hex(got), err)
+		}
+	}
+	own := append(ref.Prefix(v, id), ref.SIVEncrypt(kbP, pt, ad)...)
+	got, err = d.DecryptDeterministically(bytes.Clone(own), ad)
+	x.Eval(1)
+	if err != nil || !bytes.Equal(got, pt) {
+		x.Fail("reject-valid", "%s: the prefixed key's ciphertext rejected: %s, %v", cfg, tk.Hex(got), err)
+	}
+	// what the wrapper produces is the primary's value, and it decrypts
+	ct, err := d.EncryptDeterministically(pt, ad)
+	want := rawCT
+	if primary == 1 {
+		want = own
+	}
+	x.Eval(1)
+	if err != nil || !bytes.Equal(ct, want) {
+		x.Fail("wrong-ciphertext", "%s: keyset ciphertext %s (%v), want %s", cfg, tk.Hex(ct), err, tk.Hex(want))
+		return
+	}
+	if got, err := d.DecryptDeterministically(ct, ad); err != nil || !bytes.Equal(got, pt) {
+		x.Fail("reject-valid", "%s: the wrapper cannot decrypt its own output: %v", cfg, err)
+	}
+	// the colliding ciphertext with one bit flipped in the body is a forgery for both keys
+	bad := bytes.Clone(rawCT)
+	bad[len(bad)-1] ^= 1
+	if _, ok := ref.SIVDecrypt(kbP, bad[5:], ad); !ok {
+		if _, err := d.DecryptDeterministically(bad, ad); err == nil {
+			x.Fail("accept-forgery", "%s: modified colliding ciphertext accepted", cfg)
+		}
+	}
+	x.Eval(1)
+}
+
 // ---------------------------------------------------------------------------------------------
 // seams: internal/mac/aescmac Compute / XOREndAndCompute and the CTR step
 
@@ -1029,6 +1137,7 @@ func main() {
 		[]h.Section{
 			{Name: "aessiv", Body: sivSection, Bound: -1},
 			{Name: "aessiv-keyset", Body: sivKeysetSection, Bound: -1},
+			{Name: "aessiv-keyset-prefix-collision", Body: sivCollisionSection, Bound: -1},
 			{Name: "legacy-adapter", Body: legacyAdapterSection, Bound: -1},
 			{Name: "cmac-xorend-seam", Body: xorendSection, Bound: -1},
 			{Name: "siv-ctr-seam", Body: ctrSection, Bound: -1, Seam: true},
